@@ -211,7 +211,7 @@ func c16Write(r *core.Run, e *env, dirs []string, faultDen int) *c16Written {
 			default:
 				return sched.Decision{}
 			}
-			if !src.Bool(1, faultDen) {
+			if len(op.Faults) == 0 || !src.Bool(1, faultDen) {
 				return sched.Decision{}
 			}
 			fired++
